@@ -548,6 +548,7 @@ package astits
 //@   ensures [W] size: fits && p.Header.HasPayload ==> wN(w) == n0 + targetPacketSize && aligned(w)
 //@   ensures [C04,C11] nopayload: fits && !p.Header.HasPayload && len(p.Payload) == 0 ==> wN(w) == n0 + targetPacketSize && aligned(w)
 //@   ensures [C04,C11] reject: !fits ==> retErr != nil && written == 0
+//@   ensures [C04] rejectclean: !fits ==> wN(w) == n0
 //@   ensures [C18] surfaced: wF(w) != old(wF(w)) ==> retErr != nil
 //@   ensures [C16] keeps: len(p.Payload) == old(len(p.Payload)) && cap(p.Payload) == old(cap(p.Payload)) && p.AdaptationField == old(p.AdaptationField)
 //@   loop 0 invariant [W] pad: aligned(w) && written <= targetPacketSize && wN(w) == atentry(wN(w)) + iter && written == atentry(written) + iter
@@ -1178,6 +1179,7 @@ package astits
 //@   opt noframe
 //@   opt noloopframe
 //@   ensures [C17] start: result != nil && result.tablesRetransmitCounter == result.tablesRetransmitPeriod
+//@   ensures [C17,C01] startpid: len(opts) == 0 ==> result.nextPID == 0x100
 // A Muxer option is library code handed a *Muxer: it may set any of its fields.
 //@ extern type:func__astits.Muxer_
 //@   modifies all(arg0)
@@ -1467,3 +1469,27 @@ package astits
 //@   let D = retof("(time.Time).Day", 0)
 //@   ensures [C15] mjd: 1901 <= Y && Y <= 2099 && 1 <= M && M <= 12 && 1 <= D && D <= 31 ==> u16(wb(w, n0, 0)) << 8 | u16(wb(w, n0, 1)) == u16(dvbMJD(Y - 1900, M, D))
 //@   ensures [C15,C14] count: wN(w) == n0 + 5 && aligned(w) && result0 == 5 && result1 == nil && wPrefix(w)
+
+// ---------------------------------------------------------------------------
+// PAT / PSI syntax header encoders (C13 write side)
+
+// A PAT section body is 4 bytes per program: program_number, '111', 13-bit PID - in the order of d.Programs.
+//@ func calcPATSectionLength
+//@   requires d != nil && 0 <= len(d.Programs) && len(d.Programs) <= 4000
+//@   ensures [C13,C09] len: result == u16(4 * len(d.Programs))
+//@ func writePATSection
+//@   requires aligned(w) && 0 <= wN(w) && wN(w) < 0x400000000000 && d != nil && 0 <= len(d.Programs) && len(d.Programs) <= 4000 && allocated(d.Programs) && forall(k, 0, len(d.Programs), d.Programs[k] != nil)
+//@   modifies writer(w)
+//@   let n0 = old(wN(w))
+//@   loop 0 invariant [C13,C09] entries: rangeindex == iter - 1 && iter <= len(d.Programs) && aligned(w) && b.err == nil && wN(w) == n0 + 4 * iter && wPrefix(w)
+//@   loop 0 invariant [C13,C09] bytes: forall(k, 0, iter, be16(wD(w), n0 + 4 * k) == d.Programs[k].ProgramNumber && be16(wD(w), n0 + 4 * k + 2) == 0xe000 | d.Programs[k].ProgramMapID & 0x1fff)
+//@   ensures [C13,C09] count: wN(w) == n0 + 4 * len(d.Programs) && result0 == 4 * len(d.Programs) && result1 == nil && aligned(w) && wPrefix(w)
+//@   ensures [C13,C09] bytes: forall(k, 0, len(d.Programs), be16(wD(w), n0 + 4 * k) == d.Programs[k].ProgramNumber && be16(wD(w), n0 + 4 * k + 2) == 0xe000 | d.Programs[k].ProgramMapID & 0x1fff)
+
+// The 5-byte section syntax header: table_id_extension, '11' version current_next, section_number, last_section_number.
+//@ func writePSISectionSyntaxHeader
+//@   requires aligned(w) && 0 <= wN(w) && wN(w) < 0x400000000000 && h != nil
+//@   modifies writer(w)
+//@   let n0 = old(wN(w))
+//@   ensures [C13,C09,C17] count: wN(w) == n0 + 5 && result0 == 5 && result1 == nil && aligned(w) && wPrefix(w)
+//@   ensures [C13,C09,C17] bytes: be16(wD(w), n0) == h.TableIDExtension && wb(w, n0, 2) == 0xc0 | (h.VersionNumber & 0x1f) << 1 | u8(h.CurrentNextIndicator) && wb(w, n0, 3) == h.SectionNumber && wb(w, n0, 4) == h.LastSectionNumber
